@@ -239,6 +239,21 @@ def check_path(case, ctx):
     from svgpathtools import Path
     again = float(Path(*[gen.build_seg(s) for s in specs]).length())
     ctx.check(abs(again - want) <= 1e-9 * want + 1e-300, 'path/fresh', 'a fresh path gives %r, sum is %r' % (again, want))
+    # a path assembled step by step, with length queries in between, still reports the sum of its segments
+    segs2 = [gen.build_seg(s) for s in specs]
+    p2 = Path(segs2[0])
+    p2.length()
+    for i, sg in enumerate(segs2[1:]):
+        if i % 3 == 0:
+            p2.append(sg)
+        elif i % 3 == 1:
+            p2.extend([sg])
+        else:
+            p2.insert(len(p2), sg)
+        if i % 2 == 0:
+            p2.length()
+    inc = float(ctx.lib('Path.length', p2.length))
+    ctx.check(abs(inc - want) <= 1e-9 * want + 1e-300, 'path/incremental', 'a path built by append/extend/insert with length() calls in between reports %r, sum of segments is %r' % (inc, want))
     size = gen.spec_size(specs)
     for spec, seg in zip(specs, path):
         if len({(p[0], p[1]) for p in gen.spec_points(spec)}) < 2 and spec[0] != 'A':
